@@ -79,7 +79,7 @@ def rewrites_of(c, impl_obs, rng):
                 # gap -> address on the following field
                 for i in range(len(stmts) - 1):
                     a, b = stmts[i], stmts[i + 1]
-                    if tag(a) == 'field' and a[2] == '_' and tag(a[3]) == 'unk' and not a[4][1:] \
+                    if tag(a) == 'field' and a[2] == '_' and tag(a[3]) == 'unk' and all(tag(x) == 'aa' and x[1] == 'doc' for x in a[4][1:]) \
                             and tag(b) == 'field' and b[2] in by_name and attr_fn(b[4][1:], 'address') is None and b[2] != '_':
                         nb = [b[0], b[1], b[2], b[3], attrs(*(b[4][1:] + [a_int('address', by_name[b[2]][0])]))]
                         add('gap-to-address', replace_at(c, dpath, [d[0], d[1], d[2], [d[3][0], d[3][1]] + stmts[:i] + [nb] + stmts[i + 2:]]))
